@@ -39,10 +39,15 @@ type worldSpec struct {
 	Ages   []int  // age in days per commit slot
 	Attr   int    // index into c05Attrs
 	Flavor int    // path flavour: 0 plain, 1 non-ASCII with space, 2 sub directory
+	PushU  string // second remote `upstream`: "" (no such remote) | none | partial | full (what was pushed to it)
 }
 
 func (s worldSpec) Key() string {
-	return fmt.Sprintf("%s/%s/%s/%s/%v/attr=%s/fl=%d", s.Hist, s.Head, s.Push, s.Local, s.Ages, c05Attrs[s.Attr].Name, s.Flavor)
+	k := fmt.Sprintf("%s/%s/%s/%s/%v/attr=%s/fl=%d", s.Hist, s.Head, s.Push, s.Local, s.Ages, c05Attrs[s.Attr].Name, s.Flavor)
+	if s.PushU != "" {
+		k += "/upstream=" + s.PushU
+	}
+	return k
 }
 
 type commitInfo struct {
@@ -260,6 +265,20 @@ func (b *wb) push() {
 		b.git("push", "-q", "backup", "--all")
 	default:
 		panic(buildFail{"unknown push state " + b.spec.Push, false})
+	}
+	// a second remote with its own push state (the fork workflow: origin = own fork, upstream = canonical repository)
+	if b.spec.PushU != "" {
+		up := b.w.Init("upstream.git", true)
+		b.git("remote", "add", "upstream", up)
+		switch b.spec.PushU {
+		case "none":
+		case "partial":
+			b.git("push", "-q", "upstream", b.shas["c1"]+":refs/heads/main")
+		case "full":
+			b.git("push", "-q", "upstream", "--all")
+		default:
+			panic(buildFail{"unknown upstream push state " + b.spec.PushU, false})
+		}
 	}
 }
 
